@@ -246,6 +246,11 @@ def _laws(ctx, case, src, dst, ow, sel, result, updates, conflicts, what, report
     return bad is None
 
 
+def _raised(ctx, case, what, e):
+    ctx.violation(case, "%s raised %s: %s" % (what, type(e).__name__, str(e)[:200]))
+    ctx.count("raised:" + type(e).__name__)
+
+
 # ---------------------------------------------------------------- level A/B
 def _level_ab(ctx, n):
     from breezy import tag as _tag
@@ -257,16 +262,20 @@ def _level_ab(ctx, n):
         case = dict(level="B" if mem else "A", src=[[k, v.hex()] for k, v in src],
                     dst=[[k, v.hex()] for k, v in dst], ow=ow, sel=sel)
         sd, dd = dict(src), dict(dst)
-        if mem:
-            st, dt = _tag.MemoryTags(sd), _tag.MemoryTags(dd)
-            updates, conflicts = st.merge_to(dt, overwrite=ow, selector=mk_selector(sel))
-            result = dt.get_tag_dict()
-            if list(sd.items()) != src:
-                ctx.violation(case, "MemoryTags.merge_to mutated the source dict")
-        else:
-            result, updates, conflicts = _tag._reconcile_tags(sd, dd, ow, mk_selector(sel))
-            if list(sd.items()) != src or list(dd.items()) != dst:
-                ctx.violation(case, "_reconcile_tags mutated its input dicts (aliasing)")
+        try:
+            if mem:
+                st, dt = _tag.MemoryTags(sd), _tag.MemoryTags(dd)
+                updates, conflicts = st.merge_to(dt, overwrite=ow, selector=mk_selector(sel))
+                result = dt.get_tag_dict()
+                if list(sd.items()) != src:
+                    ctx.violation(case, "MemoryTags.merge_to mutated the source dict")
+            else:
+                result, updates, conflicts = _tag._reconcile_tags(sd, dd, ow, mk_selector(sel))
+                if list(sd.items()) != src or list(dd.items()) != dst:
+                    ctx.violation(case, "_reconcile_tags mutated its input dicts (aliasing)")
+        except Exception as e:
+            _raised(ctx, case, "MemoryTags.merge_to" if mem else "_reconcile_tags", e)
+            continue
         conflicts = list(conflicts)
         _laws(ctx, case, src, dst, ow, sel, result, updates, conflicts, "reconcile")
         ctx.case(case, nontrivial=nontrivial(src, dst, sel))
@@ -336,7 +345,11 @@ def _level_c(ctx, n):
         tb = sb if same else st.open(tname)
         if same:
             dst = src
-        updates, conflicts = sb.tags.merge_to(tb.tags, overwrite=ow, ignore_master=ign, selector=mk_selector(sel))
+        try:
+            updates, conflicts = sb.tags.merge_to(tb.tags, overwrite=ow, ignore_master=ign, selector=mk_selector(sel))
+        except Exception as e:
+            _raised(ctx, case, "BasicTags merge_to", e)
+            continue
         after_t = st.read("src" if same else tname)
         after_m = st.read("master") if bound else None
         if st.read("src") != dict(src):
@@ -425,7 +438,11 @@ def _level_d(ctx, n):
             ctx.violation(case, "git/bzr tag store did not read back what _set_tag_dict stored: %r %r" % (gs.read(s), gs.read(t)))
             continue
         sb, tb = gs.open(s), gs.open(t)
-        updates, conflicts = sb.tags.merge_to(tb.tags, overwrite=ow, selector=mk_selector(sel))
+        try:
+            updates, conflicts = sb.tags.merge_to(tb.tags, overwrite=ow, selector=mk_selector(sel))
+        except Exception as e:
+            _raised(ctx, case, "git merge_to %s->%s" % (s, t), e)
+            continue
         after = gs.read(t)
         if gs.read(s) != dict(src):
             ctx.violation(case, "merge_to changed the source's tags")
@@ -506,8 +523,8 @@ def _level_e(ctx, n, store_n):
         case = dict(level="E", op="ser", d=[[k, v.hex()] for k, v in items])
         try:
             ser = bt._serialize_tag_dict(dict(items))
-        except UnicodeEncodeError:
-            ctx.count("E:surrogate-name-rejected")
+        except Exception as e:  # generated names never contain lone surrogates
+            _raised(ctx, case, "_serialize_tag_dict", e)
             continue
         # oracle: round trip
         try:
@@ -549,15 +566,19 @@ def _level_e(ctx, n, store_n):
         items = gen_tagdict(ctx.rng)
         case = dict(level="E", op="store", d=[[k, v.hex()] for k, v in items], stepwise=bool(i % 2))
         b = st.open("tgt")
-        if i % 2:
-            with b.lock_write():
-                b.tags._set_tag_dict({})
-            for k, v in items:
-                st.open("tgt").tags.set_tag(k, v)
-        else:
-            with b.lock_write():
-                b.tags._set_tag_dict(dict(items))
-        got = st.read("tgt")
+        try:
+            if i % 2:
+                with b.lock_write():
+                    b.tags._set_tag_dict({})
+                for k, v in items:
+                    st.open("tgt").tags.set_tag(k, v)
+            else:
+                with b.lock_write():
+                    b.tags._set_tag_dict(dict(items))
+            got = st.read("tgt")
+        except Exception as e:
+            _raised(ctx, case, "storing / re-reading a tag dict", e)
+            continue
         if got != dict(items):
             ctx.violation(case, "stored tag dict read back as %r" % (got,))
         if i % 5 == 0 and items:
